@@ -663,14 +663,15 @@ theorem C10_unary_status_only (sc : Scenario) (env : Env) (t : RespTranscoder)
   simp [hn, hi]
 
 /-- A deadline that expires before the call completed — also after the response message arrived, while waiting
-    for the status — is a failure of origin `deadline` (DeadlineExceeded ⇒ 504 by `C10_table`), whatever `n` is. -/
+    for the status — is a failure of origin `deadline` (DeadlineExceeded ⇒ 504 by `C10_table`), whatever `n` is, as long
+    as nothing was written: every unary method, and a server stream before its first message. -/
 theorem C10_deadline_after_message (sc : Scenario) (env : Env) (t : RespTranscoder) (sse : Bool)
-    (hi : sc.inj = .deadline) :
+    (hi : sc.inj = .deadline) (hu : sc.rpc ≠ .serverStream ∨ sc.n = 0) :
     serveForward sc env t sse = failResp .deadline false (some t) (deadlineErr env) [] ∧
     wantStatus (deadlineErr env) = 504 := by
   constructor
   · unfold serveForward
-    simp [hi]
+    rcases hu with hu | hu <;> simp [hi, hu]
   · simp [wantStatus, explicitOf, deadlineErr, convert, RawErr.direct, cDeadlineExceeded, canonicalHttp]
 
 /-- Consequently such a call is never answered with 200 + the message: end to end, a unary scenario whose target
@@ -708,7 +709,7 @@ theorem C10_forward_returns_idle {M E : Type} [DecidableEq M] [DecidableEq E] (p
 /-- The httpStream LTS is driven exactly under these rules: each of its call/return steps is a step of the
     discipline (its runs are permitted interleavings), and whenever the rules allow Forward a call or its return,
     the LTS has that step (it excludes nothing Forward may do), in states without an abandoned `Send`. -/
-theorem C10_stream_lts_under_rules (cfg : HS.Cfg) (s : HS.St) :
+theorem C10_stream_lts_under_rules (cfg : HS.Cfg) (hfx : cfg.fx = true) (s : HS.St) :
     (∀ s' ev, HS.step cfg s ev = some s' →
       (match HS.kindEv ev with
        | some k => HS.dstep (HS.discOfHS s) k = some (HS.discOfHS s')
@@ -719,37 +720,39 @@ theorem C10_stream_lts_under_rules (cfg : HS.Cfg) (s : HS.St) :
       (∀ d' x, HS.dstep (HS.discOfHS s) .sendCall = some d' → (HS.step cfg s (.sendCall x)).isSome = true) ∧
       (∀ d' e, HS.dstep (HS.discOfHS s) .fwdRet = some d' → (HS.step cfg s (.fwdRet e)).isSome = true)) := by
   refine ⟨fun s' ev hs => HS.hs_sim cfg s s' ev hs, fun hr ha => ?_⟩
-  obtain ⟨_, h2, h3, h4, h5⟩ := HS.hs_offers cfg s hr ha
+  obtain ⟨_, h2, h3, h4, h5⟩ := HS.hs_offers cfg hfx s hr ha
   exact ⟨h2, h3, h4, h5⟩
 
-/-- **Confluence: the rendered response is the sequential one.** In every reachable state of the LTS in which the
-    handler has returned and no `Send` helper was abandoned — whatever the interleaving of helper steps, returns and
-    handler steps — the ResponseWriter holds exactly what the completed response-side calls, applied one after the
-    other in call order, followed by the handler's `writeError` on Forward's return value, produce. -/
-theorem C10_stream_final_is_sequential (cfg : HS.Cfg) (s : HS.St) (h : HS.Reachable cfg s)
-    (ha : s.abandoned = false) (hf : s.finished = true) :
+/-- **Confluence: the rendered response is the sequential one — in ALL runs of the repaired code** (`cfg.fx = true`:
+    `mu` + `finish()`, repo fix for D21), abandoned `Send`s included. In every reachable state in which the handler has
+    returned — whatever the interleaving of helper steps, returns, `withCtx` abandonments and handler steps — the
+    ResponseWriter holds exactly what the completed response-side calls, applied one after the other in call order,
+    followed by the handler's `writeError` on Forward's return value, produce. An abandoned `Send` is one of the
+    completed calls iff its helper took `mu` before `finish()` did; otherwise it found `finished` and did nothing. -/
+theorem C10_stream_final_is_sequential (cfg : HS.Cfg) (hfx : cfg.fx = true) (s : HS.St) (h : HS.Reachable cfg s)
+    (hf : s.finished = true) :
     ∃ ret, s.fwd = some ret ∧ s.core = HS.seqCore cfg s.log ret :=
-  HS.final_core cfg s h ha hf
+  HS.final_core cfg hfx s h hf
 
 /-- **The LTS refines `serve`.** For the calls Forward makes for the scenario's scripted target
-    (`callsUnary/callsStream`, `retUnary/retStream`): every run of the httpStream LTS that the call rules permit and in
-    which no `Send` was abandoned ends, once the handler returned, in the response the `serve` model computes — status,
-    Content-Type, X-Content-Type-Options, headers, trailers and body (`item` = the bytes of one streamed value). -/
+    (`callsUnary/callsStream`, `retUnary/retStream`): EVERY run of the httpStream LTS of the repaired code that the call
+    rules permit ends, once the handler returned, in the response the `serve` model computes — status, Content-Type,
+    X-Content-Type-Options, headers, trailers and body (`item` = the bytes of one streamed value). -/
 theorem C10_stream_lts_refines_serve (sc : Scenario) (env : Env) (t : RespTranscoder) (sse : Bool) (item : Bytes) :
-    (∀ s, HS.Reachable (HS.cfgUnary sc t) s → s.abandoned = false → s.finished = true →
+    (∀ s, HS.Reachable (HS.cfgUnary sc t) s → s.finished = true →
       s.log = HS.callsUnary sc env → s.fwd = some (HS.retUnary sc env) →
       HS.Matches (serveUnary sc env t) s.core.observe item) ∧
-    (∀ s, HS.Reachable (HS.cfgStream sc t) s → s.abandoned = false → s.finished = true →
+    (∀ s, HS.Reachable (HS.cfgStream sc t) s → s.finished = true →
       s.log = HS.callsStream sc env item → s.fwd = some (HS.retStream sc env) →
       HS.Matches (serveStream sc env t sse) s.core.observe item) := by
   constructor
-  · intro s hr ha hf hl hret
-    obtain ⟨ret, h1, h2⟩ := HS.final_core _ s hr ha hf
+  · intro s hr hf hl hret
+    obtain ⟨ret, h1, h2⟩ := HS.final_core _ rfl s hr hf
     rw [hret] at h1; injection h1 with h1; subst h1
     rw [h2, hl]
     exact HS.unary_seq_is_serve sc env t item
-  · intro s hr ha hf hl hret
-    obtain ⟨ret, h1, h2⟩ := HS.final_core _ s hr ha hf
+  · intro s hr hf hl hret
+    obtain ⟨ret, h1, h2⟩ := HS.final_core _ rfl s hr hf
     rw [hret] at h1; injection h1 with h1; subst h1
     rw [h2, hl]
     exact HS.stream_seq_is_serve sc env t sse item
@@ -764,17 +767,35 @@ theorem C10_stream_status_once (cfg : HS.Cfg) (s s' : HS.St) (l : HS.Ev) (hs : H
   have h := HS.wire_stable cfg s s' l hs w hw
   simp [h, HS.Core.observe]
 
-/-- **No error body after a success byte.** If a `Send` has put bytes on the wire, the handler's error path renders
-    nothing: the final state is exactly the calls' — for every permitted run without an abandoned `Send`. -/
-theorem C10_stream_no_error_after_success (cfg : HS.Cfg) (s : HS.St) (h : HS.Reachable cfg s)
-    (ha : s.abandoned = false) (hf : s.finished = true)
+/-- **No error body after a success byte — all runs of the repaired code.** If a `Send` (abandoned or not) has put
+    bytes on the wire, the handler's error path renders nothing: the final state is exactly the calls'. -/
+theorem C10_stream_no_error_after_success (cfg : HS.Cfg) (hfx : cfg.fx = true) (s : HS.St) (h : HS.Reachable cfg s)
+    (hf : s.finished = true)
     (hw : (s.log.foldl (HS.Core.apply cfg) {}).wire.isSome = true) :
     s.core = s.log.foldl (HS.Core.apply cfg) {} := by
-  obtain ⟨ret, _, h2⟩ := HS.final_core cfg s h ha hf
+  obtain ⟨ret, _, h2⟩ := HS.final_core cfg hfx s h hf
   rw [h2]
   cases ret with
   | none => rfl
   | some e => simp [HS.seqCore, hw, writeError, HS.Core.render]
+
+/-- **No write after the handler's return**, any schedule (repaired code): in every reachable state after `ServeHTTP`
+    returned, the number of steps that have touched the ResponseWriter (`SetHeader`, `SetTrailer`, the header and body
+    writes of a `Send` helper, `writeError`'s write) is the number it was when the handler returned — a straggling
+    helper is either waited for by `finish()` or finds `finished` and touches nothing. Cited for the fence of D21. -/
+theorem C10_no_write_after_return (cfg : HS.Cfg) (hfx : cfg.fx = true) (s : HS.St) (h : HS.Reachable cfg s)
+    (hf : s.finished = true) : s.returnedAt = some s.writes :=
+  HS.no_write_after_return cfg hfx s h hf
+
+/-- The handler never decides (reads `writtenStatus`) or returns while a `Send` helper holds `mu`, and a helper never
+    marks or writes once `finished` is set: the two writers of the response are serialized (repaired code). -/
+theorem C10_stream_single_writer (cfg : HS.Cfg) (hfx : cfg.fx = true) (s : HS.St) (h : HS.Reachable cfg s) :
+    (s.mu = true ↔ s.sendHelper.isMarked = true) ∧
+    (s.fin = true → s.sendHelper.isMarked = false ∧ s.mu = false) ∧
+    (s.decision.isSome = true → s.fin = true) ∧ (s.finished = true → s.fin = true) := by
+  obtain ⟨C, _⟩ := HS.inv_reach cfg hfx s h
+  refine ⟨by rw [C.mu_iff], fun hf => ⟨C.fin_nomark hf, by rw [C.mu_iff, C.fin_nomark hf]⟩,
+    fun hd => (C.dec_fin hd).1, fun hf => (C.fin hf).1⟩
 
 /-- **Trailer placement.** `SetTrailer` before the first `Send` adds plain headers; afterwards it only adds
     `Trailer:`-prefixed keys (HTTP trailers) and leaves the headers alone. `SetHeader` after a `Send` is ignored. -/
@@ -784,36 +805,55 @@ theorem C10_stream_trailer_placement (c : HS.Core) (md : MD) :
       c.setHeader md = c) := by
   constructor <;> intro h <;> simp [HS.Core.setTrailer, HS.Core.setHeader, h]
 
-/-- **The excluded class is really excluded (known finding C18-D21).** With a `Send` that `withCtx` abandoned
-    (`sendRet true`: the context ended, the helper is still before its write) the guarantee FAILS: there is a run,
-    permitted by every call rule, in which the handler's `writeError` decides on an unwritten response, the
-    abandoned helper then writes the success bytes (status 200), and the error body is appended after them — two
-    writers, a 200 carrying the success bytes followed by an error document, where the sequential reading
-    (DeadlineExceeded before any byte) is 504 with the Status body only. Kernel-checked on the concrete run
-    `HS.d21Run`; the same call with `Send` returning after its helper (`HS.d21Orderly`) is a clean 200. -/
+/-- **What was wrong (D21), as a statement about the ORIGINAL epilogue** (`fx := false`: no mutex, no `finish()`).
+    With a `Send` that `withCtx` abandoned (`sendRet true`: the context ended, the helper is still before its write)
+    there is a run, permitted by every call rule, in which the handler's `writeError` decides on an unwritten response,
+    the abandoned helper then writes the success bytes (status 200), and the error body is appended after them: two
+    writers, a 200 carrying the success bytes followed by an error document — neither sequential reading (the `Send`
+    counted: 200 + the bytes only; the `Send` dropped: 504 + the Status body only). Kernel-checked on `HS.d21Run`. -/
 theorem C10_abandoned_send_breaks_single_writer :
     ∃ s, HS.Reachable HS.d21Cfg s ∧ s.finished = true ∧ s.abandoned = true ∧
       s.core.observe.status = 200 ∧ s.core.observe.body = [[79, 75], [69]] ∧
       s.fwd = some (some HS.d21Err) ∧
-      (HS.seqCore HS.d21Cfg s.log (some HS.d21Err)).observe.status = 504 ∧
-      (HS.seqCore HS.d21Cfg s.log (some HS.d21Err)).observe.body = [[69]] ∧
-      s.core ≠ HS.seqCore HS.d21Cfg s.log (some HS.d21Err) := by
+      (HS.seqCore HS.d21Cfg [] (some HS.d21Err)).observe.status = 504 ∧
+      (HS.seqCore HS.d21Cfg [] (some HS.d21Err)).observe.body = [[69]] ∧
+      (HS.seqCore HS.d21Cfg [.send (.ok [79, 75])] (some HS.d21Err)).observe.body = [[79, 75]] ∧
+      s.core ≠ HS.seqCore HS.d21Cfg [] (some HS.d21Err) ∧
+      s.core ≠ HS.seqCore HS.d21Cfg [.send (.ok [79, 75])] (some HS.d21Err) := by
   have hrun : ∃ s, GB.LTS.run (HS.step HS.d21Cfg) HS.init HS.d21Run = some s ∧ s.finished = true ∧ s.abandoned = true ∧
       s.core.observe.status = 200 ∧ s.core.observe.body = [[79, 75], [69]] ∧
       s.fwd = some (some HS.d21Err) ∧
-      (HS.seqCore HS.d21Cfg s.log (some HS.d21Err)).observe.status = 504 ∧
-      (HS.seqCore HS.d21Cfg s.log (some HS.d21Err)).observe.body = [[69]] ∧
-      s.core ≠ HS.seqCore HS.d21Cfg s.log (some HS.d21Err) := by
+      (HS.seqCore HS.d21Cfg [] (some HS.d21Err)).observe.status = 504 ∧
+      (HS.seqCore HS.d21Cfg [] (some HS.d21Err)).observe.body = [[69]] ∧
+      (HS.seqCore HS.d21Cfg [.send (.ok [79, 75])] (some HS.d21Err)).observe.body = [[79, 75]] ∧
+      s.core ≠ HS.seqCore HS.d21Cfg [] (some HS.d21Err) ∧
+      s.core ≠ HS.seqCore HS.d21Cfg [.send (.ok [79, 75])] (some HS.d21Err) := by
     refine ⟨_, rfl, ?_⟩
     decide
   obtain ⟨s, hr, rest⟩ := hrun
   exact ⟨s, GB.LTS.run_reachable _ _ _ _ GB.LTS.Reachable.init hr, rest⟩
 
-/-- non-vacuity of the positive theorems: the orderly run of the same call ends finished, not abandoned, as a 200
-    with exactly the response bytes -/
-example : ∃ s, GB.LTS.run (HS.step HS.d21Cfg) HS.init HS.d21Orderly = some s ∧ s.finished = true ∧
+/-- The same schedule is NOT a run of the repaired code (the helper's write needs `mu`, the handler's decision needs
+    `finish()`), and both ways the race can go there end in a sequential reading: `finish()` first ⇒ the straggler does
+    nothing, 504 + the Status body only; the helper first ⇒ `finish()` waits, 200 + the response bytes, no error
+    document; in both no writer step after the return. Kernel-checked. -/
+theorem C10_abandoned_send_fenced :
+    GB.LTS.run (HS.step HS.d21Fixed) HS.init HS.d21Run = none ∧
+    (∃ s, GB.LTS.run (HS.step HS.d21Fixed) HS.init HS.d21FenceFirst = some s ∧ s.finished = true ∧ s.abandoned = true ∧
+      s.core.observe.status = 504 ∧ s.core.observe.body = [[69]] ∧ s.log = [] ∧
+      s.core = HS.seqCore HS.d21Fixed s.log (some HS.d21Err) ∧ s.returnedAt = some s.writes) ∧
+    (∃ s, GB.LTS.run (HS.step HS.d21Fixed) HS.init HS.d21HelperFirst = some s ∧ s.finished = true ∧ s.abandoned = true ∧
+      s.core.observe.status = 200 ∧ s.core.observe.body = [[79, 75]] ∧ s.log = [.send (.ok [79, 75])] ∧
+      s.core = HS.seqCore HS.d21Fixed s.log (some HS.d21Err) ∧ s.returnedAt = some s.writes) := by
+  refine ⟨by decide, ⟨_, rfl, by decide⟩, ⟨_, rfl, by decide⟩⟩
+
+/-- non-vacuity of the positive theorems: the orderly run of the same call (repaired code, `finish()` included) ends
+    finished, not abandoned, as a 200 with exactly the response bytes -/
+example : ∃ s, GB.LTS.run (HS.step HS.d21Fixed) HS.init
+      [.recvCall, .hRecvDone, .recvRet false, .sendCall (.ok [79, 75]), .hSendEnter, .hSendMark, .hSendWrite,
+       .sendRet false, .fwdRet none, .weFence, .finish] = some s ∧ s.finished = true ∧
     s.abandoned = false ∧ s.core.observe.status = 200 ∧ s.core.observe.body = [[79, 75]] ∧
-    s.core = HS.seqCore HS.d21Cfg s.log none := by
+    s.core = HS.seqCore HS.d21Fixed s.log none := by
   refine ⟨_, rfl, ?_⟩
   decide
 
